@@ -35,6 +35,7 @@ def main():
     ap.add_argument("--tier", default="quick")
     ap.add_argument("--keep", action="store_true")
     a = ap.parse_args()
+    a.src = os.path.abspath(a.src)
     x = a.name[-1]
     def pick(base, ext):
         for cand in ("{}_{}.{}".format(base, x, ext), "{}.{}".format(base, ext)):
